@@ -79,29 +79,32 @@ def close_nodes(got, want, scale_vals, nulp=4):
     return True
 
 
-def block_index_exact(e, n, region, ne, nn):
+def block_index_exact(e, n, region, ne, nn, guard=(0, 0)):
     """Admissible row-major block labels of a point for a region cut into nn x ne blocks.
 
-    Points outside are clamped per axis; points exactly on a shared edge get both neighbours."""
+    Points outside are clamped per axis; points exactly on a shared edge - or closer to it than the absolute `guard` of that axis
+    (round-off of an implementation that computes with the coordinates' magnitudes) - get both neighbours."""
     w, ea, s, no = [fr(v) for v in region]
 
-    def axis(x, lo, hi, k):
+    def axis(x, lo, hi, k, g):
         x = fr(x)
         if hi == lo:
             return {0} if k == 1 else set(range(k))
         size = (hi - lo) / k
         t = (x - lo) / size
-        if t <= 0:
-            return {0}
-        if t >= k:
-            return {k - 1}
-        i = math.floor(t)
-        if t == i:
-            return {i - 1, i}
-        return {i}
+        out = set()
+        for tt in ((t,) if not g else (t - fr(g) / size, t, t + fr(g) / size)):
+            if tt <= 0:
+                out |= {0}
+            elif tt >= k:
+                out |= {k - 1}
+            else:
+                i = math.floor(tt)
+                out |= {i - 1, i} if tt == i else {i}
+        return out
 
-    cols = axis(e, w, ea, ne)
-    rows = axis(n, s, no, nn)
+    cols = axis(e, w, ea, ne, guard[0])
+    rows = axis(n, s, no, nn, guard[1])
     return {r * ne + c for r in rows for c in cols}
 
 
